@@ -4324,7 +4324,13 @@ class ParameterizedMetaclass(type):
                 dinfo = getattr(method, '_dinfo', {'watch': False})
                 if (not any(dep[0] == w[0] for w in _watch+_inherited)
                     and dinfo.get('watch')):
-                    _inherited.append(dep)
+                    # Resolve against this class: the method bound here and
+                    # the methods it names may have been overridden on another
+                    # branch or below the class that registered it
+                    minfo = MInfo(cls=mcs, inst=None, name=dep[0], method=method)
+                    deps, dynamic_deps = _params_depended_on(minfo, dynamic=False)
+                    _inherited.append((dep[0], dinfo['watch'] == 'queued',
+                                       dinfo.get('on_init', False), deps, dynamic_deps))
 
         mcs.param._depends = {'watch': _inherited+_watch}
 
